@@ -384,6 +384,7 @@ pub fn end_case() {
     ilog::disarm();
     plan::clear();
     vclock::disable();
+    ilog::EXIT_HANDLER_BLOCKS.store(false, SeqCst);
     end_case_inner();
     let dirs: Vec<PathBuf> = std::mem::take(&mut *SCRATCH_DIRS.lock().unwrap_or_else(|e| e.into_inner()));
     for d in dirs {
